@@ -27,7 +27,8 @@ EXTENDS Integers, Sequences, FiniteSets, TLC
 
 \* healthy: the peer answers every request and no fault is injected (and the
 \* transport does not lose datagrams): then every call gets its response, an
-\* error return is a lost call.
+\* error return is a lost call - unless the caller itself set a deadline shorter than the peer's scripted
+\* delay (ret.expected).
 MMInit(e) == [active |-> {}, answered |-> {}, mustfail |-> e.mustfail,
               healthy |-> IF "healthy" \in DOMAIN e THEN e.healthy ELSE FALSE]
 
@@ -40,7 +41,7 @@ MMStep(s, e) ==
             ELSE IF e.kind = "resp"
                  THEN IF e.rc = e.c /\ e.rn = e.n /\ <<e.c, e.n>> \in s.answered
                       THEN {[s EXCEPT !.active = @ \ {<<e.c, e.n>>}]} ELSE {}
-                 ELSE IF s.healthy THEN {}
+                 ELSE IF s.healthy /\ ~("expected" \in DOMAIN e /\ e.expected) THEN {}
                  ELSE {[s EXCEPT !.active = @ \ {<<e.c, e.n>>}]}
       [] e.ev = "quiesce" ->
             IF s.active = {} /\ e.pending = 0 /\ e.leak <= 0 THEN {s} ELSE {}
